@@ -31,6 +31,11 @@ package routine
 // construction or never: TS), rst(f) the state captured by routine closure f.
 //   S1  the current routine of an owned container is the closure that captured the currently stored state
 //   S2  without a routine, the owner has no state routine or its state is empty
+// Exit status and restart rules (C14):
+//   W2  a record whose instance has not exited carries no result (results of earlier instances are not visible)
+//   execute$1 exit: the result fields are written only by the instance that is current for its record
+//   T1  failed, wanted and retry configured implies a retry timer is armed (unless the backoff said stop: bstop)
+//   SetContext$1 / retry callback exit: a succeeded routine is not started again, a failed one only with restart
 // By induction along pred, closed(ch) implies that the instance ch and every instance started before it
 // have returned; an instance enters the function only after closed(pred), every later instance waits for
 // a channel that is still open while it runs: never two at once.
@@ -41,6 +46,7 @@ package routine
 //@ ghostmap xrun: ref -> ref owned
 //@ ghostmap chof: ref -> ref once
 //@ ghostmap scof: ref -> ref once
+//@ ghostmap bstop: ref -> bool once
 //@ ghostmap rst: ref -> any once
 //@ ghostmap xfin: ref -> ref owned
 //@ ghostmap xdone: ref -> bool by xfin
@@ -66,6 +72,9 @@ package routine
 //@   inv S0: scof(this) != nil ==> cast(scof(this), StateRoutineContainer).rc == this
 //@   inv S1: scof(this) != nil && this.routine != nil ==> rst(this.routine.routine) == cast(scof(this), StateRoutineContainer).s && cast(scof(this), StateRoutineContainer).s != zero()
 //@   inv S2: scof(this) != nil && this.routine == nil ==> cast(scof(this), StateRoutineContainer).stateRoutine == nil || cast(scof(this), StateRoutineContainer).s == zero()
+//@   inv W2: forall rr: *runningRoutine {rr.r} :: rr.r == this && rr.ctx != nil && !rr.exited ==> rr.err == nil && !rr.success
+//@   inv T1: this.retryBo != nil && this.routine != nil && this.ctx != nil && this.routine.exited && !this.routine.success && !bstop(this.routine) ==> this.routine.deferRetry != nil
+//@   stable SB: this.routine != nil ==> !bstop(this.routine)
 //@   inv H3: this.routine == nil ==> this.prevExitedCh == this.lastCh || (this.prevExitedCh == nil && (this.lastCh == nil || closed(this.lastCh)))
 //
 //@ gtrans TS: forall k: ref {scof(k)} :: old(allocated(k)) && old(scof(k)) == nil ==> scof(k) == nil
@@ -117,6 +126,9 @@ package routine
 //
 //@ closure (*runningRoutine).execute$1
 //@   props C04 C14
+//@   ghost invoke NextBackOff: bstop(r) := ite(ret == -1, true, bstop(r))
+//@   assert exit: owninstance: (written(r.err) || written(r.success) || written(r.exited)) ==> csold(r.ctx) == ctx
+//@   assert exit: recorded: csold(r.ctx) == ctx ==> r.exited && r.err == err && r.success == (err == nil)
 //@   ghost entry: xdone(exitedCh) := true
 //@   ghost entry: xfin(exitedCh) := nil
 //@   loop 1 invariant idx: -1 <= i && i < len(r.r.exitedCbs)
@@ -145,6 +157,8 @@ package routine
 //
 //@ closure (*RoutineContainer).SetContext$1
 //@   props C04 C05 C14
+//@   assert exit: nosuccessrerun: csold(k.routine) != nil && csold(k.routine.success) ==> k.lastCh == csold(k.lastCh)
+//@   assert exit: failedonlyrestart: !restart && csold(k.routine) != nil && csold(k.routine.err) != nil ==> k.lastCh == csold(k.lastCh)
 //
 //@ func (*RoutineContainer).ClearContext
 //@   props C04 C05
@@ -180,6 +194,7 @@ package routine
 //@ closure (*RoutineContainer).WaitExited$1
 //@   props C14
 //@   assert exit: waitCh != nil && waitCh == k.bcast.ch
+//@   assert exit: current: exited ==> (k.routine != nil && k.ctx != nil && (k.routine.exited || k.routine.success) && exitedErr == k.routine.err) || (returnIfNotRunning && !(k.routine != nil && k.ctx != nil) && exitedErr == nil)
 //
 // The retry timer callback (started by execute's critical section through time.AfterFunc).
 //@ func (*runningRoutine).execute$1$1
@@ -189,6 +204,7 @@ package routine
 //
 //@ closure (*runningRoutine).execute$1$1$1
 //@   props C04 C14
+//@   assert exit: nosuccessrerun: csold(r.success) ==> r.r.lastCh == csold(r.r.lastCh)
 //
 // StateRoutineContainer: its fields s and stateRoutine are guarded by the lock of its RoutineContainer
 // (rc.bcast.mtx; declared above as records of RoutineContainer via rc); rc and compare are immutable.
